@@ -2397,7 +2397,19 @@ impl Reference
 			};
 		}
 
-		let member = member.map(|member| (member, value_type.clone()));
+		// The member receives the value through the steps that follow it.
+		let member = member.map(|member| {
+			let after_member = steps
+				.iter()
+				.rposition(|step| step.get_member().is_some())
+				.map_or(0, |i| i + 1);
+			let member_type = build_type_of_reference(
+				value_type.clone(),
+				&steps[after_member..],
+				false,
+			);
+			(member, member_type)
+		});
 
 		let full_type = build_type_of_reference(value_type, &steps, false);
 		let assignment_error = match typer.put_symbol(base, full_type)
